@@ -286,7 +286,7 @@ def rule_R3(ctx, typer):
 
 
 # ---------------------------------------------------------------------- R4
-ALLOWED_METHODS = {"split", "startswith", "upper", "pop", "append", "match", "join", "clear"}
+ALLOWED_METHODS = {"split", "startswith", "upper", "pop", "append", "match", "join", "clear", "partition", "rpartition"}
 STR_TOTAL_METHODS = {"lower", "casefold", "isascii", "isalpha", "isdigit", "isupper", "islower", "isspace", "isalnum", "strip", "lstrip", "rstrip",
                      "title", "swapcase", "capitalize"}
 
@@ -322,8 +322,12 @@ def rule_R4(ctx, typer, funcs):
                     ok = res.name == "cmp_"
                 elif res.kind == "ext":
                     ok = res.name in ("re.compile", "re.escape")
+                if not ok and isinstance(node.func, ast.Attribute) and node.func.attr in (STR_TOTAL_METHODS | {"split", "partition", "rpartition", "startswith",
+                                                                                                    "endswith", "upper"}):
+                    from ..nodetype import STR
+                    ok = ft.type_of(node.func.value) == STR  # a str method on a str-typed expression (e.g. a slice of the path)
                 if ok:
-                    ctx.inst("R4", f, node, "callee %s (%s)" % (norm(node.func), res.kind))
+                    ctx.inst("R4", f, node, "callee %s (%s)" % (norm(node.func), res.kind if res else "str method"))
                 else:
                     ctx.viol("R4", f, node, "call to %s on a resolver path is not in the reasoned set of callees that cannot fail "
                              "for tree nodes and strings (%s): a relaxed lookup may raise" % (
@@ -1221,6 +1225,26 @@ def rule_G6_no_extra_pruning(ctx, typer):
             continue
         n += 1
         reach = cfg.reach_from(li, avoid=match_tests, labels_excluded=("exc",))
+        # skipping a child because it has no children (it cannot carry the remaining components) is a pruning whose
+        # correctness depends on those components: not decided here
+        leaf_guards = [g for g in cfg.nodes if g.kind == "guard" and g.id in reach and cfg.dominates(li, g) and any(
+            isinstance(x, ast.Attribute) and x.attr in ("children", "is_leaf") and isinstance(x.value, ast.Name) and x.value.id == getattr(li.ast.target, "id", None)
+            for x in ast.walk(g.cond))]
+        if (any(h.id in reach for h in hs) or cfg.exit.id in reach) and leaf_guards:
+            reach2 = cfg.reach_from(li, avoid=match_tests + leaf_guards, labels_excluded=("exc",))
+            if not (any(h.id in reach2 for h in hs) or cfg.exit.id in reach2):
+                from .common import resolve_local as _rl
+                conds = [_rl(f, g_.cond) for g_ in cfg.nodes if g_.kind == "guard" and g_.id in reach and cfg.dominates(li, g_)]
+                looks_inside = any(isinstance(x, ast.Subscript) or (isinstance(x, ast.Compare) and any(isinstance(o_, (ast.In, ast.NotIn, ast.Eq, ast.NotEq)) for o_ in x.ops))
+                                   for c_ in conds for x in ast.walk(c_))
+                if not looks_inside:
+                    ctx.viol("G6", f, leaf_guards[0].cond, "childless children are skipped before matching whenever further components follow, without "
+                             "looking at those components: '', '.', '..' and '**' are satisfied at a leaf, so nodes the pattern denotes are lost",
+                             construct="__find: leaves skipped before matching")
+                    continue
+                ctx.extra.setdefault("undecided", []).append("G6: Resolver.__find skips childless children before matching (`%s`): whether such a child "
+                                                             "could still be a result depends on the remaining components and is not followed" % norm(leaf_guards[0].cond)[:60])
+                continue
         if any(h.id in reach for h in hs) or cfg.exit.id in reach:
             ctx.viol("G6", f, li.ast.target, "a child can be skipped before its name is even matched against the pattern: the result no "
                      "longer contains exactly the nodes the pattern denotes", construct="__find: child skipped before matching")
@@ -1251,6 +1275,20 @@ def rule_R8_split_unfiltered(ctx, typer):
         raise AnalysisError("anchor Resolver.__start not found")
     n = 0
     splits = [c for c in walk_own(f.node) if isinstance(c, ast.Call) and isinstance(c.func, ast.Attribute) and c.func.attr == "split"]
+    # stripping with the separator as argument removes CHARACTERS of the separator, not one leading separator
+    for c in walk_own(f.node):
+        if isinstance(c, ast.Call) and isinstance(c.func, ast.Attribute) and c.func.attr in ("lstrip", "strip", "rstrip") and len(c.args) == 1:
+            a_ = resolve_local(f, c.args[0])
+            if isinstance(a_, ast.Attribute) and a_.attr == "separator":
+                ctx.viol("R8", f, c, "`%s` strips every leading/trailing character that occurs in the separator, not one occurrence of the "
+                         "separator: a doubled leading separator is swallowed and names that begin with such a character are damaged" % norm(c),
+                         construct="__start: %s(separator)" % c.func.attr)
+                return 1
+    parts_ = [c for c in walk_own(f.node) if isinstance(c, ast.Call) and isinstance(c.func, ast.Attribute) and c.func.attr in ("partition", "rpartition")]
+    if parts_ and len(splits) != 1:
+        ctx.extra.setdefault("undecided", []).append("R8: Resolver.__start takes the root component with partition() and splits the rest separately: "
+                                                     "that this equals one split of the whole path is not followed")
+        return 1
     if len(splits) != 1:
         ctx.viol("R8", f, f.node, "the path is not split exactly once into its components", construct="__start: %d split calls" % len(splits))
         return 1
